@@ -702,6 +702,31 @@ theorem source_kernels_have_the_properties (u : ℚ) :
     fun h => ⟨kernel_pos_inside .epanechnikov u h, kernel_pos_inside .tricube u h, kernel_pos_inside .bisquare u h⟩,
     ⟨kernel_le_peak .epanechnikov u, kernel_le_peak .tricube u, kernel_le_peak .bisquare u⟩⟩
 
+/-! ### Open finding C06-multivariate-smooth-bandwidth -/
+
+/-- Full statement for the wrappers: the value an entry point reports for data `(x, y)`, query `x₀` and the
+REQUESTED bandwidth `h` is `lpEstimate1 k h d n x y x₀`, whatever other bandwidth the entry point might prefer. -/
+def full_statement (reported : CKernel → ℚ → ℕ → ℕ → (ℕ → ℚ) → (ℕ → ℚ) → ℚ → Option ℚ) : Prop :=
+  ∀ k h d n x y x0, reported k h d n x y x0 = lpEstimate1 k h d n x y x0
+
+/-- `MultivariateFunctionalData.smooth` as it is: the requested bandwidth is dropped and a default `h₀` used. -/
+def reportedIgnoringBandwidth (h0 : ℚ) : CKernel → ℚ → ℕ → ℕ → (ℕ → ℚ) → (ℕ → ℚ) → ℚ → Option ℚ :=
+  fun k _ d n x y x0 => lpEstimate1 k h0 d n x y x0
+
+/-- The code violates the full statement: on three points, requested bandwidth 2, default 1/2, the
+requested fit is 23/10 while the reported one has an empty-window (singular) local problem. -/
+theorem counterexample : ¬ full_statement (reportedIgnoringBandwidth (1 / 2)) := by
+  intro h
+  have := h .epanechnikov 2 1 3 (ofList [0, 1, 2]) (ofList [1, 2, 4]) 1
+  revert this
+  unfold reportedIgnoringBandwidth
+  decide +kernel
+
+/-- … and it holds wherever the requested bandwidth is the one used (the domain of the partial result):
+all the theorems above then apply to the wrapper as to `LocalPolynomial.predict`. -/
+theorem wrapper_partial (h0 : ℚ) (k : CKernel) (d n : ℕ) (x y : ℕ → ℚ) (x0 : ℚ) :
+    reportedIgnoringBandwidth h0 k h0 d n x y x0 = lpEstimate1 k h0 d n x y x0 := rfl
+
 /-! ### Non-vacuity: the hypotheses of the theorems above are met by concrete data -/
 
 /-- A well-posed local problem: three points, Epanechnikov, `h = 2`, degree 1, query `1`. -/
